@@ -18,9 +18,25 @@ for pid in ids:
         d = os.path.join(out, pid, x)
         if not os.path.exists(os.path.join(d, 'patch.diff')):
             continue
-        loc = open(os.path.join(d, 'demo_location.txt')).read().split()[0].strip()
-        crate = loc.split('/')[0]
-        tname = os.path.splitext(os.path.basename(loc))[0]
+        isdiff = not os.path.exists(os.path.join(d, 'demo.rs')) and os.path.exists(os.path.join(d, 'demo.diff'))
+        if isdiff:
+            loc = re.search(r'^\+\+\+ b/(\S+)', open(os.path.join(d, 'demo.diff')).read(), re.M).group(1)
+            crate = loc.split('/')[0]
+            tname = None
+        else:
+            loc = open(os.path.join(d, 'demo_location.txt')).read().split()[0].strip()
+            crate = loc.split('/')[0]
+            tname = os.path.splitext(os.path.basename(loc))[0]
+        def put_demo():
+            if isdiff:
+                return sh(f'git apply {d}/demo.diff', cwd=WT)
+            os.makedirs(os.path.dirname(os.path.join(WT, loc)), exist_ok=True)
+            shutil.copy(os.path.join(d, 'demo.rs'), os.path.join(WT, loc))
+        def rm_demo():
+            if isdiff:
+                return sh(f'git apply -R {d}/demo.diff', cwd=WT)
+            os.remove(os.path.join(WT, loc))
+        testcmd = f'cargo test --offline -p {crate} --lib seed_demo' if isdiff else f'cargo test --offline -p {crate} --test {tname}'
         sh('git checkout -q -- . && git clean -qfd', cwd=WT)
         r = dict(id=pid, x=x, loc=loc)
         rc, o = sh(f'git apply --check {d}/patch.diff', cwd=WT)
@@ -28,16 +44,15 @@ for pid in ids:
         if rc != 0:
             r['apply_err'] = o[-300:]
             res.append(r); print(json.dumps(r), flush=True); continue
-        os.makedirs(os.path.dirname(os.path.join(WT, loc)), exist_ok=True)
-        shutil.copy(os.path.join(d, 'demo.rs'), os.path.join(WT, loc))
+        put_demo()
         env = f'CARGO_TARGET_DIR={TGT}'
-        rc, o = sh(f'{env} cargo test --offline -p {crate} --test {tname} 2>&1 | tail -15', cwd=WT)
+        rc, o = sh(f'{env} {testcmd} 2>&1 | tail -15', cwd=WT)
         r['clean_demo_pass'] = bool(re.search(r'test result: ok', o)) and 'FAILED' not in o
         sh(f'git apply {d}/patch.diff', cwd=WT)
-        rc, o = sh(f'{env} timeout 600 cargo test --offline -p {crate} --test {tname} 2>&1 | tail -15', cwd=WT)
+        rc, o = sh(f'{env} timeout 600 {testcmd} 2>&1 | tail -15', cwd=WT)
         r['patched_demo_fail'] = ('FAILED' in o) or ('test result: FAILED' in o) or ('timed out' in o)
         r['patched_demo_tail'] = o[-300:]
-        os.remove(os.path.join(WT, loc))
+        rm_demo()
         rc, o = sh(f'{env} cargo test --workspace --no-fail-fast --offline 2>&1 | grep -E "^test result|FAILED|panicked" | head -60', cwd=WT)
         fails = [l for l in o.splitlines() if 'FAILED' in l or 'failed' in l and not l.strip().endswith('0 failed; 0 ignored; 0 measured; 0 filtered out; finished in 0.00s')]
         nfail = sum(int(m.group(1)) for m in re.finditer(r'(\d+) failed;', o))
